@@ -2,5 +2,7 @@ SPECIFICATION Spec
 CONSTANTS
   MaxMembers = 3
   MaxLen = 8
+  MaxExtra = 2
+  Deep = 4
 INVARIANTS RuleSane HugeSane EmitCase
 CHECK_DEADLOCK FALSE
